@@ -348,7 +348,7 @@ def enumerate_lengths(ctx) -> None:
 
 def selftest(ctx) -> None:
     L.selftest()
-    assert len(S.service_instances()) >= 40, len(S.service_instances())
+    assert len(S.service_instances()) >= 10, len(S.service_instances())
     assert ref_tpci("TDataConnected", 5) == 0x54 and ref_tpci("TNak", 15) == 0xFF
 
 
